@@ -116,11 +116,17 @@ def build_harness(name, extra=(), multidef=False):
                "-I" + os.path.join(BUILD, "gen")]
         for d in ("agent", "random", "socket", "stun", "stun/usages", "nice"):
             cmd.append("-I" + os.path.join(REPO, d))
-        cmd += pkgflags("--cflags") + list(extra) + [src, "-o", exe, "-Wl,--start-group"] + libs + \
+        # link into a temporary file and rename: a concurrently running check keeps executing the old binary
+        tmp = exe + ".tmp%d" % os.getpid()
+        cmd += pkgflags("--cflags") + list(extra) + [src, "-o", tmp, "-Wl,--start-group"] + libs + \
             ["-Wl,--end-group"] + pkgflags("--libs") + ["-ldl", "-lm"]
         if multidef:
             cmd.append("-Wl,--allow-multiple-definition")
         rc, out, err = sh(cmd, timeout=600)
+        if rc == 0:
+            os.replace(tmp, exe)
+        elif os.path.exists(tmp):
+            os.remove(tmp)
         return rc == 0, exe, out + err
 
 
